@@ -202,3 +202,66 @@ func HarnessProxyWiring() {
 	}
 	vCover(true, "wiring checked")
 }
+
+// HarnessResponsePassthrough: the target's status, headers and body come back through the whole server chain
+// (logging, request ids, error pages, service, target response writer; with and without response buffering)
+// unchanged - also when the target sends an informational 103 first and when it writes the body in two pieces.
+func HarnessResponsePassthrough() {
+	router := NewRouter("/state")
+	buffered := vBool("buffer_responses")
+	opts := ServiceOptions{Hosts: []string{"example.com"}}
+	topts := TargetOptions{HealthCheckConfig: HealthCheckConfig{Path: "/up"}, BufferResponses: buffered, MaxMemoryBufferSize: 1 << 20, MaxResponseBodySize: 0}
+	svc, err := NewService("svc", opts, topts)
+	vAssert(err == nil, "passthrough: service builds")
+	t, err := NewTarget("backend:3000", topts)
+	vAssert(err == nil, "passthrough: target builds")
+	t.state = TargetStateHealthy
+	status := vIntRange("status", 200, 599)
+	hdr := vString("resp_hdr", 2)
+	body1 := vBytes("body1", vChoose("len1", 3))
+	body2 := vBytes("body2", vChoose("len2", 2))
+	early := vChoose("early_hints", 2) == 1
+	inner := http.HandlerFunc(func(w http.ResponseWriter, r *http.Request) {
+		w.Header()["X-Custom"] = []string{hdr}
+		if early {
+			w.WriteHeader(103)
+		}
+		w.WriteHeader(status)
+		w.Write(body1)
+		w.Write(body2)
+	})
+	// the target's handler chain as NewTarget builds it (buffering middlewares in front of the proxy handler)
+	t.proxyHandler = vRebuildTargetChain(t, inner)
+	lb := &LoadBalancer{healthy: TargetList{}, all: TargetList{t}}
+	t.stateConsumer = lb
+	lb.updateHealthyTargets()
+	svc.active = lb
+	router.services.Set(svc)
+	srv := NewServer(&Config{HttpPort: 80, HttpsPort: 443}, router)
+	h := srv.buildHandler()
+	u := &url.URL{Path: "/x"}
+	vRequestURI[u] = "/x"
+	req := &http.Request{Method: "GET", URL: u, Host: "example.com", Header: http.Header{}, RemoteAddr: "1.2.3.4:5", Proto: "HTTP/1.1"}
+	client := vNewRecorder()
+	h.ServeHTTP(client, req)
+	client.finish()
+	vAssert(client.status == status, "passthrough: the client receives the target's final status")
+	vAssert(string(client.body) == string(body1)+string(body2), "passthrough: the client receives the target's body")
+	got := client.Header()["X-Custom"]
+	vAssert(len(got) == 1 && got[0] == hdr, "passthrough: the client receives the target's headers")
+	vCover(early && status != 200, "early hints then a non-200 status reachable")
+	vCover(buffered, "buffered reachable")
+}
+
+// vRebuildTargetChain: the handler chain NewTarget puts in front of a target's proxy handler (HarnessProxyWiring checks
+// that NewTarget wires exactly this), around a scripted stand-in for the reverse proxy.
+func vRebuildTargetChain(t *Target, inner http.Handler) http.Handler {
+	h := inner
+	if t.options.BufferResponses {
+		h = WithResponseBufferMiddleware(t.options.MaxMemoryBufferSize, t.options.MaxResponseBodySize, h)
+	}
+	if t.options.BufferRequests {
+		h = WithRequestBufferMiddleware(t.options.MaxMemoryBufferSize, t.options.MaxRequestBodySize, h)
+	}
+	return h
+}
